@@ -4,6 +4,7 @@ import (
 	"bytes"
 	"fmt"
 
+	"github.com/AdguardTeam/golibs/errors"
 	"github.com/AdguardTeam/golibs/log"
 	yaml "gopkg.in/yaml.v3"
 )
@@ -64,20 +65,61 @@ func (m *Migrator) Migrate(body []byte, target uint) (newBody []byte, upgraded b
 		return body, false, nil
 	}
 
+	// Make sure that the document can be written at all before upgrading it,
+	// so that the outcome doesn't depend on whether a value that cannot be
+	// written survives the upgrade.
+	if _, err = encodeConf(diskConf); err != nil {
+		return body, false, fmt.Errorf("checking config: %w", err)
+	}
+
 	if err = m.upgradeConfigSchema(current, target, diskConf); err != nil {
 		// Don't wrap the error, since it's informative enough as is.
 		return body, false, err
 	}
 
-	buf := bytes.NewBuffer(newBody)
-	enc := yaml.NewEncoder(buf)
-	enc.SetIndent(2)
-
-	if err = enc.Encode(diskConf); err != nil {
+	newBody, err = encodeConf(diskConf)
+	if err != nil {
 		return body, false, fmt.Errorf("generating new config: %w", err)
 	}
 
-	return buf.Bytes(), true, nil
+	return newBody, true, nil
+}
+
+// encodeConf returns the YAML document for conf.  It returns an error if the
+// document isn't read back as the same document:  the encoder writes some rare
+// values, such as multiline strings starting with a tab or consisting of line
+// breaks only, in a way that cannot be parsed or is parsed into another value,
+// and the configuration file must not be replaced with such a document.
+func encodeConf(conf yobj) (data []byte, err error) {
+	marshal := func(v yobj) (b []byte, encErr error) {
+		buf := &bytes.Buffer{}
+		enc := yaml.NewEncoder(buf)
+		enc.SetIndent(2)
+		encErr = enc.Encode(v)
+
+		return buf.Bytes(), encErr
+	}
+
+	data, err = marshal(conf)
+	if err != nil {
+		// Don't wrap the error, since it's informative enough as is.
+		return nil, err
+	}
+
+	readBack := yobj{}
+	err = yaml.Unmarshal(data, &readBack)
+	if err != nil {
+		return nil, fmt.Errorf("reading back: %w", err)
+	}
+
+	again, err := marshal(readBack)
+	if err != nil {
+		return nil, fmt.Errorf("reading back: %w", err)
+	} else if !bytes.Equal(again, data) {
+		return nil, errors.Error("reading back: document has changed")
+	}
+
+	return data, nil
 }
 
 // validateVersion validates the current and desired schema versions.
